@@ -310,6 +310,49 @@ PROPS = {
             "panics caused by failing I/O (disk full): the writer thread ends",
         ],
     },
+    "C17": {
+        "title": "Every log line is one valid JSON object that preserves the tag values",
+        "design_ref": "DESIGN.md section 3 (C17)",
+        "technique": "Verus contracts on the real write_json_str, Display for TagValue / TagList / Level and LogEvent::write_jsonl (write! / writeln! "
+                     "expanded piece by piece by rule R12 over a character-sink model of std::fmt) against a piecewise line specification; theorems over "
+                     "the specification: an RFC 8259 string decoder written independently of the encoder reads every string member back and "
+                     "stops at its own closing quote; the line has no control character except its final line break",
+        "level_text": "Deductive proof for every string (every Unicode scalar value sequence), every tag list and every event, unbounded: "
+                      "write_json_str appends exactly '\"' + escape of every character + '\"' (\\\", \\\\, \\n, \\r, \\t, \\u00XX for the other "
+                      "characters below 0x20, everything else verbatim); a tag value is written as that JSON string, the decimal form of the "
+                      "integer (all widths incl. 128 bit), true / false, null or the float's text; the tag list is \"name\":value joined by "
+                      "commas in list order; write_jsonl writes {\"time\":\"YYYY-MM-DDTHH:MM:SSZ\",\"level\":\"<level>\",<members>,\"time_ns\":<n>} and "
+                      "a line break, with no comma slip when the list is empty. Theorems: for every string s and every context, an RFC 8259 section 7 "
+                      "string decoder started at the string's opening quote returns exactly s and ends exactly after its closing quote -- a "
+                      "value cannot terminate its string early, add members or continue into the next member; every member name and string "
+                      "value reads back (thm_string_member_reads_back); the line contains no character below 0x20 before its final '\\n' "
+                      "(thm_one_line), so it is exactly one line.",
+        "level_note": "Assumed (std::fmt): write!/writeln! write the literal pieces verbatim and each argument through its Display impl, in order; "
+                      "Display of the integer types is the decimal form (digits, leading '-'), `{:0N}` of a non-negative i64 is digits only; "
+                      "Display of bool / String; Formatter::write_char / write_str append; char::from_digit. A Float tag holds the text std's "
+                      "Display produced for a finite f32 / f64 (non-finite values are logged as strings since fix 61b4c0b); that this text is a "
+                      "JSON number is not proved (bounded stand-in c17 only). The object-level grammar (that the whole line parses as one "
+                      "object with exactly these members) is checked by the bounded stand-in c17 with an independent RFC 8259 parser; the "
+                      "deductive part proves the piecewise shape, the string members and the single-line clause. SystemTime -> (date, ns) "
+                      "conversions are uninterpreted here (C16 proves DateTime::new).",
+        "verus": ["jsonl"],
+        "verus_thorough": [],
+        "kani": [],
+        "witness": "c17",
+        "assumptions": [
+            "assumed meaning of std::fmt's write! / writeln!: literal pieces verbatim, `{}` = the argument's Display output, `{:0N}` = zero-padded decimal, in order, stopping at the first error (rule R12)",
+            "assumed: Display for i8..i128 / u8..u128 / usize prints the decimal form; for bool true / false; for String / str the characters",
+            "assumed: std::fmt::Formatter::write_char / write_str append to the output; char::from_digit(d, 16) is the lower-case hex digit",
+            "assumed: a TagValue::Float holds std's Display text of a finite float, which has no control character (type invariant; From<f32>/<f64> are not under contract)",
+            "string literals denote their characters (Verus reveal_strlit, generated from the literal tokens)",
+        ],
+        "not_covered": [
+            "that the whole line is one RFC 8259 object with exactly the expected members (object-level grammar): bounded stand-in c17 with an independent parser",
+            "that std prints a finite float as a JSON number; From<f32> / From<f64> / From<&Path> conversions (format!)",
+            "the stdout logger's non-JSON format (start_stdout_logger_thread), Debug impls",
+            "UTF-8 encoding of the characters by the sink (std)",
+        ],
+    },
     "C03": {
         "title": "Message framing comes only from the headers",
         "design_ref": "DESIGN.md section 4 (C03)",
@@ -414,7 +457,7 @@ PROPS = {
 # are listed in its evidence as notes (they are another property's alarm, or an unproved supporting contract).
 UNIT_OWNER = {
     "time": "C16", "chunked": "C07", "headers": "C14", "copy": "C09", "body": "C09", "conn": "C05", "head": "C01",
-    "parse": "C02", "logset": "C19", "logwriter": "C19", "framing": "C03", "respguard": "C06", "respwrite": "C06", "errresp": "C20",
+    "parse": "C02", "logset": "C19", "logwriter": "C19", "jsonl": "C17", "framing": "C03", "respguard": "C06", "respwrite": "C06", "errresp": "C20",
 }
 SCOPE = {
     # total request reading also needs the parsers to be panic-free
@@ -453,6 +496,5 @@ NOT_APPLICABLE = {
     "C12": "the slot pool is a channel mutated through &self from several tasks / threads and refilled in Drop; expressing it needs Verus' atomic-invariant machinery inside the real types, and Kani has no thread or channel support",
     "C13": "a liveness / race property of accept_loop's await points against permit revocation; deductive contracts on sequentialised code cannot express it",
     "C15": "split / trim / splitn iterator chains into a HashMap and a Display impl made of write!; no arithmetic or structural core to specify, and HashMap + fmt are beyond Kani's budget here",
-    "C17": "the behaviour is std::fmt's Debug / Display for str, integers and floats; the repository functions are thin wrappers whose postcondition would be an assumed contract of std",
     "C18": "thread-local tag isolation and exactly-once routing through a global mutex and channels under concurrent install / clear; concurrency is outside contract-based verification of sequentialised code",
 }
